@@ -1,5 +1,14 @@
 package props
 
-import "encoding/json"
+import (
+	"encoding/json"
+	"os"
+)
 
 func jsonUnmarshal(b []byte, v any) error { return json.Unmarshal(b, v) }
+
+func tmpDir() string { return os.TempDir() }
+
+func writeFile(p string, b []byte) { _ = os.WriteFile(p, b, 0o644) }
+
+func removeFile(p string) { _ = os.Remove(p) }
